@@ -84,6 +84,7 @@ struct Done {
     results: Vec<Outcome>,
     blobs: Vec<e57::Blob>,
     desc: String,
+    raw_xml: Vec<u8>,
 }
 
 struct Complete {
@@ -100,9 +101,10 @@ fn done_from(bytes: Vec<u8>) -> Result<Done, String> {
     let rd = E57Reader::new(Dev::new(bytes.clone())).map_err(|e| crate::harness::err_string(&e))?;
     let blobs = blob_list(&rd);
     let ops = alphabet(rd.pointclouds().len(), blobs.len());
-    let desc = format!("{:?}|{:?}|{}|{}", rd.pointclouds(), rd.images(), rd.guid(), rd.xml());
+    let desc = format!("{:?}|{:?}|{}|{}|{:?}|{:?}|{:?}|{:?}|{:?}|{:?}", rd.pointclouds(), rd.images(), rd.guid(), rd.xml(), rd.header(), rd.extensions(), rd.creation(), rd.coordinate_metadata(), rd.format_name(), rd.library_version());
     let (results, _) = fresh_results(&bytes, &ops)?;
-    Ok(Done { bytes, ops, results, blobs, desc })
+    let raw_xml = E57Reader::raw_xml(Dev::new(bytes.clone())).map_err(|e| crate::harness::err_string(&e))?;
+    Ok(Done { bytes, ops, results, blobs, desc, raw_xml })
 }
 
 /// `second`: operations executed after the first finalize, followed by a second finalize
@@ -209,10 +211,28 @@ fn judge_image(c: &Complete, img: &[u8], before_finalize: bool, what: &dyn Fn() 
     if before_finalize {
         return Some((format!("{P}/accepted-before-finalize"), format!("the reader accepts a device image from before the top-level finalize call: {}", what())));
     }
-    let desc = format!("{:?}|{:?}|{}|{}", r.pointclouds(), r.images(), r.guid(), r.xml());
+    let desc = format!("{:?}|{:?}|{}|{}|{:?}|{:?}|{:?}|{:?}|{:?}|{:?}", r.pointclouds(), r.images(), r.guid(), r.xml(), r.header(), r.extensions(), r.creation(), r.coordinate_metadata(), r.format_name(), r.library_version());
     let Some(d) = c.done.iter().find(|d| d.desc == desc) else {
         return Some((format!("{P}/accepted-image-lists-other-content"), format!("an accepted crash image lists other point clouds / images / XML than any completed file: {}", what())));
     };
+    // an accepted file is completely on the device: every page inside the length announced by
+    // its header is there and intact
+    let hl = r.header().phys_length as usize;
+    if hl > img.len() || hl % 1024 != 0 {
+        return Some((format!("{P}/accepted-image-is-incomplete/length"), format!("an accepted crash image announces a length of {hl} bytes but the device holds {}: {}", img.len(), what())));
+    }
+    for pg in 0..hl / 1024 {
+        let page = &img[pg * 1024..pg * 1024 + 1024];
+        if e57spec::crc::crc32c_fast(&page[..1020]).to_be_bytes() != page[1020..] {
+            return Some((format!("{P}/accepted-image-is-incomplete/torn-page"), format!("an accepted crash image contains the torn page {pg} inside the {hl} bytes announced by its header: {}", what())));
+        }
+    }
+    // the static entry points: error or the completed file's result
+    if let Ok(x) = E57Reader::raw_xml(Dev::new(img.to_vec())) {
+        if x != d.raw_xml {
+            return Some((format!("{P}/partial-data-presented/raw_xml"), format!("raw_xml on an accepted crash image returns other bytes than on the completed file: {}", what())));
+        }
+    }
     // every operation, forwards and then backwards on the same reader
     let order: Vec<usize> = (0..d.ops.len()).chain((0..d.ops.len()).rev()).collect();
     for i in order {
